@@ -72,10 +72,13 @@ namespace detail
 		template<typename genType>
 		GLM_FUNC_QUALIFIER static genType call(genType Source, genType Multiple)
 		{
+			genType const Remainder = std::fmod(Source, Multiple);
+			if(Remainder == genType(0))
+				return Source;
 			if(Source > genType(0))
-				return Source + (Multiple - std::fmod(Source, Multiple));
+				return Source + (Multiple - Remainder);
 			else
-				return Source + std::fmod(-Source, Multiple);
+				return Source - Remainder;
 		}
 	};
 
@@ -116,10 +119,11 @@ namespace detail
 		template<typename genType>
 		GLM_FUNC_QUALIFIER static genType call(genType Source, genType Multiple)
 		{
-			if(Source >= genType(0))
-				return Source - std::fmod(Source, Multiple);
+			genType const Remainder = std::fmod(Source, Multiple);
+			if(Source >= genType(0) || Remainder == genType(0))
+				return Source - Remainder;
 			else
-				return Source - std::fmod(Source, Multiple) - Multiple;
+				return Source - Remainder - Multiple;
 		}
 	};
 
